@@ -201,6 +201,7 @@ pub struct Stats {
     pub distinct: BTreeSet<u64>,
     pub nontrivial: BTreeSet<u64>,
     pub samples: Vec<Value>,
+    pub digests: Vec<String>,
 }
 
 impl Stats {
@@ -402,6 +403,16 @@ fn record(r: &Runner, st: &mut Stats, case: &Case, o: &RunOut, viol: &mut Vec<Va
     st.parsers.insert(format!("{}/{}", case.parser, case.layout));
     let h = fnv64(&[case.parser.as_bytes(), case.layout.as_bytes(), &case.input[..], format!("{:?}{}{}{:?}", case.faults, case.ignore_expected, case.via_file, case.io_faults).as_bytes()].concat());
     st.distinct.insert(h);
+    if report::digest_on() {
+        let detail = match &o.out {
+            Out::Ok { leaves, .. } => format!("leaves={}", leaves.len()),
+            Out::ParseErr { pos, msg, .. } => format!("pos={pos}:{:016x}", fnv64(msg.as_bytes())),
+            Out::IoErr(m) => format!("io:{:016x}", fnv64(m.as_bytes())),
+            Out::Panic(p) => format!("panic:{}:{}", p.file.rsplit('/').next().unwrap_or(""), p.line),
+            _ => String::new(),
+        };
+        st.digests.push(format!("{idx}|{:016x}|{}|{}|ev={}|calls={}|fired={:?}|cell={}", h, o.out.tag(), detail, o.events, o.lexer_calls, o.faults_fired, o.empty_cell));
+    }
     let nontrivial = case.fclass != "baseline" && (case.faults.is_empty() || o.faults_fired.iter().any(|x| x.1));
     if nontrivial {
         st.nontrivial.insert(h);
@@ -503,7 +514,8 @@ fn run_item(r: &Runner, entries: &[Entry], item: &(usize, usize), thorough: bool
             }
         }
     }
-    json!({"stats": st.to_json(), "violations": viol})
+    let digests = std::mem::take(&mut st.digests);
+    json!({"stats": st.to_json(), "violations": viol, "digests": digests})
 }
 
 pub fn items(r: &Runner, entries: &[Entry]) -> Vec<(usize, usize)> {
@@ -715,13 +727,21 @@ pub fn minimise(r: &Runner, case: &Case, key: &str) -> Case {
 pub fn run(args: &Args) -> i32 {
     let paths = Paths { verif: args.verif.clone(), repo: args.repo.clone() };
     let t0 = crate::now_s();
-    let entries = match corpus::load(&args.verif) {
+    let mut entries = match corpus::load(&args.verif) {
         Ok(e) => e,
         Err(e) => {
             eprintln!("harness error: {e}");
             return 2;
         }
     };
+    if let Some(only) = &args.only {
+        // determinism self-test: a slice of the corpus
+        for e in entries.iter_mut() {
+            if !only.split(',').any(|o| e.id.contains(o)) {
+                e.sentences.clear();
+            }
+        }
+    }
     let summaries = match crate::pool::fan_out(args.workers, &|w, nw| work(args, &entries, w, nw)) {
         Ok(s) => s,
         Err(e) => {
@@ -738,6 +758,10 @@ pub fn run(args: &Args) -> i32 {
             eprintln!("harness error: {:?}", errs);
             return 2;
         }
+    }
+    if let Some(out) = &args.digest_out {
+        let (n, h) = report::write_digests(&merged, Some(out));
+        println!("digest: {n} runs, hash {h:016x}");
     }
     let st = merged["stats"].clone();
     let mut violations: Vec<Violation> = merged["violations"].as_array().cloned().unwrap_or_default().iter().filter_map(Violation::from_json).collect();
